@@ -80,6 +80,13 @@ def hide_by_metadata(rng, t: Tree, kinds: typing.Dict[str, str]) -> typing.Set[s
         n = rng.choice(dirs)
         blocks.append("Path=./%s/\nType=X\n" % n)
         hidden.add(n)
+    if dirs and cands:
+        # a block about a file *inside a sub-directory* that is named like a file of this directory says nothing
+        # about this directory's file (blocks are matched by full path, not by base name)
+        d, n = rng.choice(dirs), rng.choice(cands)
+        if n not in hidden:
+            t.file(d + "/" + n, "namesake inside %s\n" % d)
+            blocks.append("Path=./%s/%s\nType=X\n" % (d, n))
     for n in dirs:
         # .cap files speak about sub-directories as well as about files
         if n not in hidden and rng.random() < 0.5:
